@@ -430,7 +430,8 @@ def check_sigkill(case):
                 code = CHILD.format(repo=REPO_DIR, verif=VERIF_DIR, k=k,
                                     argv=argv)
                 proc = subprocess.run(
-                    [sys.executable, '-c', code], capture_output=True,
+                    [sys.executable] + (['-O'] if sys.flags.optimize else [])
+                    + ['-c', code], capture_output=True,
                     env=dict(os.environ, PYTHONDONTWRITEBYTECODE='1'))
                 if proc.returncode != -signal.SIGKILL:
                     raise Reject('child was not killed (rc {})'.format(
